@@ -66,15 +66,24 @@ Show(e) ==
     [] e.k = "attr" -> Show(e.o) \o (IF e.dunder THEN ".__d__" ELSE ".p")
     [] e.k = "sub" -> Show(e.o) \o "[0]"
     [] e.k = "fstr" -> "F{" \o Show(e.e) \o "}"
-    [] e.k = "pos" -> CASE e.w = "kwarg" -> "KWARG<" \o Show(e.e) \o ">"           \* sorted('ab', key=<e>)
-                        [] e.w = "compiter" -> "COMPITER<" \o Show(e.e) \o ">"     \* ['ab' for _ in [<e>]]
-                        [] e.w = "compcond" -> "COMPCOND<" \o Show(e.e) \o ">"     \* ['ab' for _ in 'ab' if <e>]
-                        [] e.w = "lamdefault" -> "LAMDEF<" \o Show(e.e) \o ">"     \* (lambda a=<e>: 'ab')()
-                        [] e.w = "kwlambda" -> "KWLAM<" \o Show(e.e) \o ">"        \* sorted('ab', key=lambda _a: <e>): a lambda a pure builtin calls
+    [] e.k = "pos" -> CASE e.w = "kwarg" -> "kwarg<" \o Show(e.e) \o ">"           \* sorted('ab', key=<e>)
+                        [] e.w = "compiter" -> "compiter<" \o Show(e.e) \o ">"     \* ['ab' for _ in [<e>]]
+                        [] e.w = "compcond" -> "compcond<" \o Show(e.e) \o ">"     \* ['ab' for _ in 'ab' if <e>]
+                        [] e.w = "lamdefault" -> "lamdef<" \o Show(e.e) \o ">"     \* (lambda a=<e>: 'ab')()
+                        [] e.w = "kwlambda" -> "kwlam<" \o Show(e.e) \o ">"        \* sorted('ab', key=lambda _a: <e>): a lambda a pure builtin calls
+
+\* an un-called lambda handed to a pure builtin: the property neither allows nor forbids it as such (its body can only fail or read what
+\* it reads); only the absence of effects is claimed for such shapes
+RECURSIVE Lenient(_)
+Lenient(x) == CASE x.k = "pos" -> x.w = "kwlambda" \/ Lenient(x.e)
+                [] x.k = "call" -> Lenient(x.f) \/ Lenient(x.a)
+                [] x.k \in {"attr", "sub"} -> Lenient(x.o)
+                [] x.k = "fstr" -> Lenient(x.e)
+                [] OTHER -> FALSE
 
 VARIABLES e, done
 Init == e \in Exprs(Depth) /\ done = FALSE
 Next == /\ ~done /\ done' = TRUE /\ UNCHANGED e
-        /\ PrintT("RES " \o Show(e) \o " " \o ToJson([show |-> Show(e), allowed |-> Policy(e), effects |-> Effects(e)]))
+        /\ PrintT("RES " \o Show(e) \o " " \o ToJson([show |-> Show(e), allowed |-> Policy(e), effects |-> Effects(e), lenient |-> Lenient(e)]))
 Sandbox == Policy(e) => Effects(e) = {}
 =============================================================================
